@@ -90,7 +90,7 @@ class Gen02(hist.HistGen):
     def op(self):
         r = self.r
         x = r.random()
-        if x < 0.05 or (x < 0.17 and not getattr(self, 'posf', None)):
+        if x < 0.04 or (x < 0.14 and not getattr(self, 'posf', None)):
             # documents with arrays of sub-documents / scalars for the positional operator (always
             # there before the first positional update of a history)
             ds, self.posf = self.pg().docs()
